@@ -72,6 +72,8 @@ Section Inv.
   Variable conv : Z -> Z -> Z.
   (* scipy's csr<->csc conversion yields the matrix the direct conversion yields *)
   Hypothesis conv_ok : forall a w, conv (akey a w) (f (akey a (negb w))) = f (akey a w).
+  (* the dtype memo never removes an entry (extracted fact: Gen/S_threads.memo_no_deletion) *)
+  Hypothesis no_del : memo_clear_bound cfg = None.
 
   Notation step_thread := (step_thread cfg f conv).
   Notation step_at := (step_at cfg f conv).
@@ -362,6 +364,7 @@ Section Inv.
       destruct (alookup key (memo sh)) eqn:E; [|congruence]. cbn. (split; [|split]); auto using ext_refl.
       apply ret_ok; auto. left; cbn. rewrite (Hin _ _ _ Hmemo E). reflexivity.
     - (* PmCompute *)
+      unfold memo_evict; rewrite no_del.
       cbn; (split; [|split]); auto using ext_refl. apply goto_ok; auto; try reflexivity.
     - (* PmSet *)
       cbn. (split; [|split]); auto using ext_set_memo, shared_ok_set_memo.
@@ -430,7 +433,7 @@ Section Inv.
   (* ---------------------------------------------------------------- operands *)
   Lemma step_thread_operands sh t : operands (fst (step_thread sh t)) = operands sh.
   Proof.
-    unfold step_thread. destruct (pcs t); cbn;
+    clear no_del conv_ok. unfold step_thread, memo_evict. destruct (pcs t); cbn;
       repeat match goal with |- context [match ?x with _ => _ end] => destruct x; cbn end; reflexivity.
   Qed.
 
@@ -561,7 +564,7 @@ Lemma race_fine cfg f conv s :
 Proof.
   intros H.
   exists [[CCache s 0 11]; [CCache s 0 12]], [0; 0; 0; 0; 1; 1; 1; 1; 1; 1; 1; 0]%nat, (CCache s 0 11).
-  destruct cfg as [a b n v]; destruct s; cbn in H; subst; vm_compute; auto.
+  destruct cfg as [a b n v m]; destruct s; cbn in H; subst; vm_compute; auto.
 Qed.
 
 (* for the source as it is: the realistic witness at CPython 3.12's switching granularity *)
@@ -589,7 +592,8 @@ Lemma source_verdict :
   if all_snapshot src_config then schedule_independent src_config else race_exists src_config.
 Proof.
   destruct (all_snapshot src_config) eqn:E.
-  - intros f conv Hc ops progs sched c r H. eapply snapshot_sound; eauto.
+  - intros f conv Hc ops progs sched c r H.
+    eapply (snapshot_sound src_config f conv Hc eq_refl sched ops progs c r); [exact E | exact H].
   - intros f conv. eexists _, _, _. apply d13_witness_raises. exact E.
 Qed.
 
@@ -598,17 +602,19 @@ Qed.
 Lemma source_schedule_independent : schedule_independent src_config.
 Proof.
   intros f conv Hc ops progs sched c r H.
-  eapply (snapshot_sound src_config f conv Hc sched ops progs c r); [reflexivity | exact H].
+  eapply (snapshot_sound src_config f conv Hc eq_refl sched ops progs c r); [reflexivity | exact H].
 Qed.
 
 Lemma fixed_verdict : schedule_independent fixed_config.
 Proof.
   intros f conv Hc ops progs sched c r H.
-  eapply (snapshot_sound fixed_config f conv Hc sched ops progs c r); [reflexivity | exact H].
+  eapply (snapshot_sound fixed_config f conv Hc eq_refl sched ops progs c r); [reflexivity | exact H].
 Qed.
 
 (* the generated shapes are the ones the model transcribes *)
-Lemma src_shapes_modelled : attr_memo_three_stage = true /\ memo_check_then_set = true /\ (1 <= maxlen src_config)%nat.
+Lemma src_shapes_modelled :
+  attr_memo_three_stage = true /\ memo_check_then_set = true /\ memo_no_deletion = true /\
+  memo_clear_bound src_config = None /\ (1 <= maxlen src_config)%nat.
 Proof. repeat split; vm_compute; auto. Qed.
 
 (* ---------------------------------------------------------------- non-vacuity *)
@@ -642,10 +648,23 @@ Proof. vm_compute. auto. Qed.
 
 (* the variant the code had before the repair, on the witness schedule: the hypotheses of
    cache_race_refuted are satisfiable and the race is the realistic one *)
-Definition direct_config : config := mkConfig false false (maxlen src_config) (csc_via_csr src_config).
+Definition direct_config : config := mkConfig false false (maxlen src_config) (csc_via_csr src_config) None.
 Example race_nonvacuous :
   let st := run_coarse direct_config ex_f ex_conv d13_sched (init [] (d13_threads STranspose)) in
   snap direct_config STranspose = false /\ all_finished st = true /\
   outputs st = [[(CCache STranspose 0 11, Raise RuntimeError)];
                 [(CCache STranspose 0 10, Ok 71); (CCache STranspose 0 12, Ok 85)]].
 Proof. vm_compute. auto. Qed.
+
+(* a memo WITH deletion (a miss clears the dict once it holds >= 2 entries): the membership test and the
+   subscript of a hit can be separated by another thread's clear — the call fails (KeyError) *)
+Lemma memo_deletion_race cfg f conv :
+  memo_clear_bound cfg = Some 2%nat ->
+  exists progs sched c,
+    In (c, Raise OtherError) (all_outputs (run cfg f conv sched (init [] progs))).
+Proof.
+  intros H.
+  exists [[CMemo 1; CMemo 2; CMemo 1]; [CMemo 3]],
+         [0; 0; 0; 0; 0; 0; 0; 0; 0; 0; 1; 1; 1; 0]%nat, (CMemo 1).
+  destruct cfg as [a b n v m]; cbn in H; subst; vm_compute; auto.
+Qed.
